@@ -109,6 +109,9 @@ func TestC14(t *testing.T) {
 	checkWitnesses(t, id)
 	checkRegressions(t, id)
 	ev.Rule(id, "rapid-generated multi-package programs with regular and in-package _test.go files (annotated declarations, @ignore comments and violations in any of them) under configurations scan-tests x exclude-paths in {empty, default, 1-3 tokens matching file names, name fragments or directories of the program}. oracles: (i) no diagnostic in a file excluded by the reference skip predicate, never TONL in a test file; (ii) metamorphic: stripping all comments from the excluded files leaves the other files' diagnostics unchanged; (iii) exactness under the configuration: the IMM/CTOR/TONL/PKGO diagnostics equal the model expectation in which annotations of excluded files do not exist and sites in excluded files are silent (with scan-tests on, test files are checked like any other file but never get TONL). non-trivial = an excluded file holds an annotation on a declaration that an analysed file uses, or a file-level/@ignore comment, or a violation site; distinct by (sources, config)")
+	_, sn := shard()
+	extBudget := scale(16, 1600) / sn
+	extN := 0
 	rapid.Check(t, func(rt *rapid.T) {
 		p := proggen.Gen(rt, proggen.GenOpts{Focus: "all", MinPkgs: 1, MaxPkgs: 3, TestFiles: true, XTest: true, Aliases: true, Rich: true})
 		// @ignore comments: sometimes a file-level one in a random file
@@ -133,11 +136,20 @@ func TestC14(t *testing.T) {
 			pool = append(pool, f.Name, strings.TrimSuffix(f.Name, ".go"), f.Pkg.Dir+"/", f.Pkg.Dir+"/"+f.Name, f.Pkg.Dir+"/"+f.Name[:2])
 		}
 		pool = append(pool, "_test", "testdata", "nomatch", "f1", "0.go")
+		// cases that also go through the real drivers prefer directory entries (go vet starts
+		// the tool in each package's directory: a relative reading of the entry would differ)
+		wantExt := extN < extBudget && engine.BinPath() != "" && rapid.IntRange(0, 9).Draw(rt, "external") < 3
+		if wantExt && rapid.IntRange(0, 9).Draw(rt, "dirEntry") < 6 {
+			f := files[rapid.IntRange(0, len(files)-1).Draw(rt, "dirEntryFile")]
+			cfg.ExcludePaths = append(cfg.ExcludePaths, rapid.SampledFrom([]string{"/" + f.Pkg.Dir + "/", "/" + f.Pkg.Dir + "/" + f.Name}).Draw(rt, "dirEntryForm"))
+		}
 		switch rapid.IntRange(0, 3).Draw(rt, "pathsShape") {
 		case 0:
-			cfg.ExcludePaths = []string{}
+			if cfg.ExcludePaths == nil {
+				cfg.ExcludePaths = []string{}
+			}
 		case 1:
-			cfg.ExcludePaths = []string{"testdata"}
+			cfg.ExcludePaths = append(cfg.ExcludePaths, "testdata")
 		default:
 			n := rapid.IntRange(1, 3).Draw(rt, "npaths")
 			for i := 0; i < n; i++ {
@@ -175,6 +187,16 @@ func TestC14(t *testing.T) {
 					violation(rt, id, "prog", "c14-exact", p.Size(), pc, "config scan-tests=%v exclude-paths=%q: %s tool and model disagree: %s", cfg.ScanTests, cfg.ExcludePaths, cat.prefix, strings.Join(ss, "; "))
 				}
 			}
+		}
+		// (iv) the same configuration through the real drivers: the standalone binary and
+		// go vet -vettool (which starts the tool in each package's own directory) must
+		// locate their diagnostics exactly where the in-process run does
+		if wantExt {
+			extN++
+			if why := c14Drivers(c, res.Diags); why != "" {
+				violation(rt, id, "c14", "c14-drivers", p.Size(), c, "config scan-tests=%v exclude-paths=%q through the real drivers: %s", cfg.ScanTests, cfg.ExcludePaths, why)
+			}
+			ev.Class(id, "configuration also through binary and go vet")
 		}
 		// classification / non-triviality
 		nExcl, nExclAnnot, nExclSites := 0, 0, 0
@@ -222,4 +244,39 @@ func TestC14(t *testing.T) {
 			ev.Sample(id, map[string]interface{}{"config": cfg, "sources": src, "diagnostics": sortedKeys(engine.KeySet(res.Diags))})
 		}
 	})
+}
+
+// c14Drivers runs the case through the standalone binary and go vet -vettool
+// with the configuration given as flags and compares with the in-process result.
+func c14Drivers(c c14Case, inproc []engine.Diag) string {
+	dir, err := engine.Scratch()
+	if err != nil {
+		return ""
+	}
+	defer engine.RmScratch(dir)
+	if err := engine.WriteToDisk(enginePkgs(c.Pkgs, c.Sources), dir); err != nil {
+		return ""
+	}
+	flags := []string{fmt.Sprintf("--config.scan-tests=%v", c.Config.ScanTests), "--config.exclude-paths=" + strings.Join(c.Config.ExcludePaths, ",")}
+	bin := engine.RunBinary(dir, flags, nil, "./...")
+	if bin.TimedOut {
+		return ""
+	}
+	if len(bin.Panics) > 0 || len(bin.Errors) > 0 || bin.Exit != 0 {
+		return fmt.Sprintf("binary failed: exit %d %v %v %s", bin.Exit, bin.Panics, bin.Errors, firstLine(bin.Stderr))
+	}
+	if d := diffSets(diagSet(inproc), diagSet(bin.Diags), "in-process", "standalone binary"); d != "" {
+		return d
+	}
+	vet := engine.RunVet(dir, flags, nil, "./...")
+	if vet.TimedOut {
+		return ""
+	}
+	if len(vet.Panics) > 0 || len(vet.Errors) > 0 {
+		return fmt.Sprintf("go vet -vettool failed: exit %d %v %v", vet.Exit, vet.Panics, vet.Errors)
+	}
+	if d := diffSets(diagSetFull(bin.Diags), diagSetFull(vet.Diags), "standalone binary", "go vet -vettool"); d != "" {
+		return d
+	}
+	return ""
 }
